@@ -48,6 +48,55 @@ Fixpoint tbl_get (c : N) (t : table) : mres :=
   | (k, v) :: t' => if (k =? c)%N then v else tbl_get c t'
   end.
 
+(* ---------- what a plugin prints, and plugin.validate (plugin/plugin.go) ---------- *)
+(* The table of a case is given by the harness as what every file content PRINTS when it is
+   run with get-plugin-metadata (established by running it directly and decoding its output
+   with encoding/json); whether that is valid metadata is decided here, by the model of
+   validate. [tbl_of] turns such a raw table into the table the model of Install works on. *)
+Record rawmeta := RM {
+  rm_name : string; rm_desc : string; rm_ver : string; rm_url : string;
+  rm_contracts : list string;      (* supportedContractVersions *)
+  rm_caps : list string }.         (* capabilities *)
+
+Inductive rres :=
+| RJson (m : rawmeta)   (* exit status 0, the output decodes into a GetMetadataResponse *)
+| RNotJson              (* exit status 0, the output does not decode *)
+| RFail.                (* cannot be executed / exit status other than 0 *)
+
+(* plugin.ContractVersion of notation-plugin-framework-go (the harness checks the value) *)
+Definition contract_version : string := "1.0".
+
+(* validate, check by check in the order of the code *)
+Definition validate (m : rawmeta) : bool :=
+  if String.eqb (rm_name m) "" then false
+  else if String.eqb (rm_desc m) "" then false
+  else if String.eqb (rm_ver m) "" then false
+  else if String.eqb (rm_url m) "" then false
+  else match rm_caps m with
+       | [] => false
+       | _ => match rm_contracts m with
+              | [] => false
+              | _ => mem_str contract_version (rm_contracts m)
+              end
+       end.
+
+Definition mres_of (r : rres) : mres :=
+  match r with
+  | RJson m => if validate m then MOk (rm_name m) (rm_ver m) else MMalformed
+  | RNotJson => MMalformed
+  | RFail => MFail
+  end.
+
+Definition rtable := list (N * rres).
+
+Fixpoint rtbl_get (c : N) (t : rtable) : rres :=
+  match t with
+  | [] => RFail
+  | (k, v) :: t' => if (k =? c)%N then v else rtbl_get c t'
+  end.
+
+Definition tbl_of (rt : rtable) : table := map (fun p => (fst p, mres_of (snd p))) rt.
+
 Definition is_exec (f : file) : bool := N.testbit (f_mode f) 6.          (* mode.Perm()&0100 != 0 *)
 Definition set_exec (f : file) : file := F (f_name f) (N.lor (f_mode f) 64) (f_cid f).   (* setExecutable *)
 Definition mask (f : file) : file := F (f_name f) (N.land (f_mode f) 493) (f_cid f).     (* Mode() & 0755 *)
